@@ -113,12 +113,15 @@ def to_json(cat, shape, val, casing="camel", native_map_keys=False, native_wrapp
 
 def json_serialisable(d):
     """structural JSON-serialisability: dict with str keys / list / str / int / float / bool / None"""
+    if isinstance(d, bytes):
+        return False
     if d is None or isinstance(d, (bool, SymBool, int, SymInt, float, str)):
         return True
     if isinstance(d, list):
         return all(json_serialisable(x) for x in d)
     if isinstance(d, dict):
-        return all(isinstance(k, str) and json_serialisable(v) for k, v in d.items())
+        # json.dumps accepts str, int, float, bool and None keys (and writes them as strings)
+        return all((k is None or isinstance(k, (str, int, float, bool, SymInt, SymBool))) and not isinstance(k, bytes) and json_serialisable(v) for k, v in d.items())
     return False
 
 
